@@ -1,13 +1,14 @@
 #!/bin/bash
-# tools/seed_matrix.sh [tier]  -- runs every seeded change against the check of its own property; writes seeded/RESULTS.tsv
-tier="${1:-quick}"
-out=/verif/seeded/RESULTS.tsv
-printf "seed\tproperty\ttier\texit\tviolations\tfirst_key\n" > "$out"
-for d in /verif/seeded/*/; do
+# tools/seed_matrix.sh [tier] [glob]  -- runs seeded changes (default: all) against the check of their own property
+tier="${1:-quick}"; pat="${2:-*}"
+out=/verif/seeded/RESULTS-$tier.tsv
+[ -f "$out" ] || printf "seed\tproperty\ttier\texit\tviolations\tfirst_key\n" > "$out"
+for d in /verif/seeded/$pat/; do
   n=$(basename "$d"); id=${n%-*}
   line=$(/verif/tools/try_patch.sh "$d/patch.diff" "$tier" "$id" 2>&1 | grep "^== ")
   ex=$(echo "$line" | sed -n 's/.*exit=\([0-9]*\).*/\1/p'); nv=$(echo "$line" | sed -n 's/.*exit=[0-9]* \([0-9]*\) violation.*/\1/p')
   key=$(echo "$line" | sed -n 's/.*key=\([^ ]*\).*/\1/p')
+  grep -v "^$n	" "$out" > "$out.tmp"; mv "$out.tmp" "$out"
   printf "%s\t%s\t%s\t%s\t%s\t%s\n" "$n" "$id" "$tier" "$ex" "$nv" "$key" >> "$out"
+  echo "$n exit=$ex violations=$nv $key"
 done
-cat "$out"
